@@ -281,6 +281,7 @@ type udHello struct {
 	TP        []udParam
 	NTP       int // number of quic_transport_parameters extensions
 	ExtIDs    []uint16
+	Suites    []byte
 }
 
 // udParseHello walks a ClientHello handshake message (RFC 8446 4.1.2).
@@ -320,9 +321,13 @@ func udParseHello(ch []byte) (*udHello, error) {
 	if !skip(2 + 32) {
 		return nil, fmt.Errorf("ClientHello truncated")
 	}
-	for _, lb := range []int{1, 2, 1} { // session id, cipher suites, compression
-		if _, ok := vec(lb); !ok {
+	for i, lb := range []int{1, 2, 1} { // session id, cipher suites, compression
+		v, ok := vec(lb)
+		if !ok {
 			return nil, fmt.Errorf("ClientHello truncated")
+		}
+		if i == 1 {
+			h.Suites = append([]byte{}, v...)
 		}
 	}
 	exts, ok := vec(2)
@@ -1228,6 +1233,7 @@ func udSequence(o *udOut, r *u.Rng, name, qkey string, sp *quic.QUICSpec, dials 
 // ---- nil spec == plain Transport ---------------------------------------------------------
 
 type udShape struct {
+	Feat    []int64 // packet numbers, their lengths, extension ids, key shares (group, length), cipher suites, SNI length
 	Sizes   []int
 	SCIDLen int
 	PNs     []int64
@@ -1238,7 +1244,7 @@ type udShape struct {
 }
 
 func (s udShape) String() string {
-	return fmt.Sprintf("sizes=%v scidlen=%d pn=%v pnlen=%v tokenlen=%d frames=%q tp=%s", s.Sizes, s.SCIDLen, s.PNs, s.PNLens, s.TokLen, s.Frames, udParamsString(s.TP))
+	return fmt.Sprintf("sizes=%v scidlen=%d pn=%v pnlen=%v tokenlen=%d frames=%q tp=%s feat=%v", s.Sizes, s.SCIDLen, s.PNs, s.PNLens, s.TokLen, s.Frames, udParamsString(s.TP), s.Feat)
 }
 
 func udShapeOf(fl udFlight) (udShape, error) {
@@ -1280,12 +1286,55 @@ func udShapeOf(fl udFlight) (udShape, error) {
 		s.TP = append(s.TP, udParam{p.ID, v})
 	}
 	sort.Slice(s.TP, func(i, j int) bool { return s.TP[i].ID < s.TP[j].ID })
+	for _, pn := range s.PNs {
+		s.Feat = append(s.Feat, pn)
+	}
+	s.Feat = append(s.Feat, -1)
+	for _, l := range s.PNLens {
+		s.Feat = append(s.Feat, int64(l))
+	}
+	s.Feat = append(s.Feat, -1)
+	for _, id := range ob.Hello.ExtIDs {
+		s.Feat = append(s.Feat, int64(id))
+	}
+	s.Feat = append(s.Feat, -1)
+	for _, ks := range ob.Hello.KeyShares {
+		s.Feat = append(s.Feat, int64(ks.Group), int64(len(ks.Data)))
+	}
+	s.Feat = append(s.Feat, -1)
+	for i := 0; i+1 < len(ob.Hello.Suites); i += 2 {
+		s.Feat = append(s.Feat, int64(ob.Hello.Suites[i])<<8|int64(ob.Hello.Suites[i+1]))
+	}
+	s.Feat = append(s.Feat, -1, int64(len(ob.Hello.SNI)), int64(s.SCIDLen), int64(s.TokLen))
 	return s, nil
 }
 
 func udNilSpec(o *udOut, r *u.Rng) {
 	confs := []*quic.Config{nil, {InitialPacketSize: 1200}, {EnableDatagrams: true, MaxIncomingStreams: 7, InitialStreamReceiveWindow: 70000}, {Versions: []quic.Version{quic.Version2}}}
 	c := confs[r.Intn(len(confs))]
+	if r.Chance(2, 3) { // a random configuration
+		c = &quic.Config{
+			InitialPacketSize:              uint16([]int{0, 1200, 1252, 1300, 1350}[r.Intn(5)]), // larger datagrams do not pass the simulated link
+			EnableDatagrams:                r.Bool(),
+			InitialStreamReceiveWindow:     uint64([]int{0, 1 << 10, 70000, 1 << 20}[r.Intn(4)]),
+			InitialConnectionReceiveWindow: uint64([]int{0, 1 << 12, 200000, 1 << 21}[r.Intn(4)]),
+			MaxIncomingStreams:             int64([]int{0, -1, 1, 7, 1000}[r.Intn(5)]),
+			MaxIncomingUniStreams:          int64([]int{0, -1, 3, 100}[r.Intn(4)]),
+			MaxIdleTimeout:                 time.Duration([]int{0, 5, 45, 600}[r.Intn(4)]) * time.Second,
+			DisablePathMTUDiscovery:        r.Bool(),
+			Allow0RTT:                      r.Bool(),
+			EnableStreamResetPartialDelivery: r.Bool(),
+		}
+		if r.Bool() {
+			c.Versions = []quic.Version{quic.Version2, quic.Version1}
+		}
+		if c.MaxStreamReceiveWindow = 0; c.InitialStreamReceiveWindow > 0 {
+			c.MaxStreamReceiveWindow = c.InitialStreamReceiveWindow * 4
+		}
+		if c.InitialConnectionReceiveWindow > 0 {
+			c.MaxConnectionReceiveWindow = c.InitialConnectionReceiveWindow * 4
+		}
+	}
 	flU, err1 := udCapture(nil, false, "", c)
 	flP, err2 := udCapture(nil, true, "", c)
 	if err1 != nil || err2 != nil {
@@ -1317,7 +1366,7 @@ func udNilSpec(o *udOut, r *u.Rng) {
 		}
 		return u.List(s)
 	}
-	fmt.Fprintf(o.w, "CASE 1 %s\n", u.App("NilSpec", zl(sU.Sizes), u.List(tpU), zl(sP.Sizes), u.List(tpP)))
+	fmt.Fprintf(o.w, "CASE 1 %s\n", u.App("NilSpec", zl(sU.Sizes), u.List(tpU), u.ZList(sU.Feat), zl(sP.Sizes), u.List(tpP), u.ZList(sP.Feat)))
 }
 
 // ---- Initial CRYPTO retransmission bookkeeping on the real packer (case Retx) -------------
